@@ -127,6 +127,41 @@ impl BoundSet {
         true
     }
 
+    /// The lowest version these bounds are satisfied by, if there is one.
+    fn min_version(&self) -> Option<Version> {
+        use Bound::*;
+        use Predicate::*;
+
+        // The lowest version within the lower bound ...
+        let lowest = match self.lower.as_ref() {
+            Lower(Including(v)) => v.clone(),
+            Lower(Excluding(v)) => {
+                let mut v = v.clone();
+                if !v.is_prerelease() {
+                    v.patch += 1;
+                }
+                v.pre_release.push(Identifier::Numeric(0));
+                v
+            }
+            _ => Version::from((0, 0, 0, 0)),
+        };
+
+        // ... and, in ascending order, what follows it when it is a
+        // prerelease these bounds do not admit: the release it belongs to,
+        // then the first prerelease the upper bound opts in.
+        let mut candidates = vec![lowest.clone()];
+        if lowest.is_prerelease() {
+            candidates.push(Version::from((lowest.major, lowest.minor, lowest.patch)));
+        }
+        if let Upper(Including(v)) | Upper(Excluding(v)) = self.upper.as_ref() {
+            if v.is_prerelease() {
+                candidates.push(Version::from((v.major, v.minor, v.patch, 0)));
+            }
+        }
+
+        candidates.into_iter().find(|v| self.satisfies(v))
+    }
+
     fn allows_all(&self, other: &BoundSet) -> bool {
         self.lower <= other.lower && other.upper <= self.upper
     }
@@ -505,38 +540,7 @@ impl Range {
     Return the lowest [Version] that can possibly match the given range.
     */
     pub fn min_version(&self) -> Option<Version> {
-        if let Some(min_bound) = self.0.iter().map(|range| &range.lower).min() {
-            let min_bound = min_bound.as_ref();
-            match min_bound {
-                Bound::Lower(pred) => match pred {
-                    Predicate::Including(v) => Some(v.clone()),
-                    Predicate::Excluding(v) => {
-                        let mut v = v.clone();
-                        if v.is_prerelease() {
-                            v.pre_release.push(Identifier::Numeric(0))
-                        } else {
-                            v.patch += 1;
-                        }
-                        Some(v)
-                    }
-                    Predicate::Unbounded => {
-                        let mut zero = Version::from((0, 0, 0));
-                        if self.satisfies(&zero) {
-                            return Some(zero);
-                        }
-
-                        zero.pre_release.push(Identifier::Numeric(0));
-                        if self.satisfies(&zero) {
-                            return Some(zero);
-                        }
-                        None
-                    }
-                },
-                Bound::Upper(_) => None,
-            }
-        } else {
-            None
-        }
+        self.0.iter().filter_map(|set| set.min_version()).min()
     }
 }
 
